@@ -94,7 +94,7 @@ class C11(Check):
             '{1,2,3} x --no-stdout x --no-stderr x --non-zero-exit x status '
             '{0,3} x script name {relative, absolute (+bare, no prefix '
             'thorough)}; 1-2 output files of every kind x {cwd, '
-            'sub-directory} x naming {default, ".", explicit, glob} x '
+            'sub-directory, $TMPDIR} x naming {default, ".", explicit, glob} x '
             'pre-existing outputs; thorough adds two-line streams, missing '
             'final newline, the larger token / file-kind alphabets, '
             'regeneration histories and `python test_x.py` subprocess runs. '
@@ -172,8 +172,11 @@ class C11(Check):
                 textual = gh.FILE_KINDS[k][1] is None
                 contents = [[t] for t in T] if textual else [None]
                 for lines in contents:
-                    for sub in (0, 1):
+                    for sub in (0, 1, 2):
                         for sp, pre in spec_points(absolute=absolute):
+                            if sub == 2 and (pre or lines not in (
+                                    None, ['plain'], ['today'], ['tmp'])):
+                                continue
                             for it in (1, 2, 3):
                                 scripts = ('rel', 'abs') if (
                                     lines in (None, ['plain'])) else ('rel',)
@@ -189,12 +192,14 @@ class C11(Check):
             if tier == 'thorough':
                 pairs += [(k, k) for k in ('text', 'bin')]   # same base name
             for k1, k2 in pairs:
-                for s1, s2 in ((0, 0), (0, 1), (1, 1), (1, 0)):
+                for s1, s2 in ((0, 0), (0, 1), (1, 1), (0, 2), (1, 0)):
                     if k1 == k2 and s1 == s2:
                         continue
                     if (s1, s2) == (1, 0) and tier != 'thorough':
                         continue
                     for sp, pre in spec_points(with_pre=(tier == 'thorough')):
+                        if pre and 2 in (s1, s2):
+                            continue
                         for it in (1, 2, 3):
                             yield mk(out=['plain'], err=['today'],
                                      files=[{'kind': k1, 'sub': s1},
@@ -310,7 +315,8 @@ class C11(Check):
                     os.path.relpath(ap, b.cwd)),
                     'generation-leaves-other-files-alone',
                     {'case': b.case, 'event': ev, 'path': p}, sub)
-            elif any(ap == os.path.join(b.cwd, rel) for rel in outputs):
+            elif any(ap == os.path.normpath(os.path.join(b.cwd, rel))
+                     for rel in outputs):
                 R.viol('output-written-by-gentest',
                        'generation-leaves-outputs-alone',
                        {'case': b.case, 'event': ev, 'path': p}, sub)
@@ -323,12 +329,15 @@ class C11(Check):
 
     def check_outputs(self, R, b, after, sub):
         for rel, dname, kind in b.files:
-            want = gh.hashlib.sha1(b.data[dname]).hexdigest()
-            if rel not in after:
+            p = os.path.normpath(os.path.join(b.cwd, rel))
+            if not os.path.isfile(p):
                 R.viol('output-removed:%s' % kind,
                        'generation-leaves-outputs-alone',
                        {'case': b.case, 'path': rel}, sub)
-            elif after[rel][0] != want:
+                continue
+            with open(p, 'rb') as f:
+                got = f.read()
+            if got != b.data[dname]:
                 R.viol('output-altered:%s' % kind,
                        'generation-leaves-outputs-alone',
                        {'case': b.case, 'path': rel}, sub)
@@ -454,12 +463,21 @@ class C11(Check):
             missing = sorted(set(want_tests) - set(tests))
             extra = sorted(set(tests) - set(want_tests))
             if missing or extra:
+                xk = sorted(set(
+                    'command-input' if (x.startswith('test_d_')
+                                        or x == 'test_emit_sh')
+                    else 'bystander' if x.startswith('test_keep_')
+                    else 'other' for x in extra))
                 R.viol('test-set:missing=%s:extra=%s'
                        % (','.join(self.guardname(b, guards.get(m)) for m in
-                                   missing) or '-', len(extra)),
+                                   missing) or '-', '+'.join(xk) or '-'),
                        'one-test-per-stream-file-status',
                        {'case': case, 'missing': missing, 'extra': extra},
                        sub)
+            if extra:
+                # a file the command never wrote is treated as its output:
+                # the generated setUpClass deletes it; what follows is noise
+                return R
         else:
             R.unspec += 1
             if len(tests) != spec.expected_count(case, basenames):
@@ -480,8 +498,8 @@ class C11(Check):
                 cl = self.classes(case['err'])
             elif gname.startswith('file-'):
                 f = case['files'][guards[t][1]]
-                cl = self.classes(f.get('lines')) + (':sub' if f.get('sub')
-                                                     else '')
+                cl = self.classes(f.get('lines')) + ('', ':sub', ':tmp')[
+                    f.get('sub') or 0]
             else:
                 cl = '-'
             R.viol('test-fails:%s:%s:n%s:%s'
